@@ -493,11 +493,18 @@ def _match_unicode_identifier(
     # This prevents '<->' (tension operator alias) from being consumed.
     if end < len(content) and content[end] == "<":
         qualifier_start = end + 1
+        # GH#300: empty qualifier NAME<> is the canonical form of the constructor NAME[]
+        if qualifier_start < len(content) and content[qualifier_start] == ">":
+            end = qualifier_start + 1
         # Qualifier must start with a valid identifier start char
-        if qualifier_start < len(content) and _is_valid_identifier_start(content[qualifier_start]):
+        elif qualifier_start < len(content) and _is_valid_identifier_start(content[qualifier_start]):
             qualifier_end = qualifier_start + 1
-            # Consume remaining qualifier characters (identifier body chars)
-            while qualifier_end < len(content) and _is_valid_identifier_char(content[qualifier_end]):
+            # Consume remaining qualifier characters (identifier body chars).
+            # GH#300: commas separate multiple arguments (NEVER<A,B,C>), matching the
+            # emitter's ANNOTATION_PATTERN so that canonical output is re-readable.
+            while qualifier_end < len(content) and (
+                _is_valid_identifier_char(content[qualifier_end]) or content[qualifier_end] == ","
+            ):
                 qualifier_end += 1
             # Strip trailing hyphens from qualifier (same as identifier rule)
             while qualifier_end > qualifier_start + 1 and content[qualifier_end - 1] == "-":
